@@ -173,12 +173,18 @@ class Disp:
         if self.spawns is not None:
             self.w.tasks[self.spawns] = ctx.spawn(self.w.run_task, self.spawns)
         try:
-            if self.enter == "suspend":
-                how = await self.w.gate("de:" + self.name)
-                if how == "fail":
+            # the disposable works inside a state update of its OWN while it is being entered (each one in its own task,
+            # concurrently): it sees its own update throughout, never a sibling's
+            mine = 600 + sum(map(ord, self.name)) % 97
+            with ctx.updated(_make(A, mine)):
+                self._saw("enter", mine)
+                if self.enter == "suspend":
+                    how = await self.w.gate("de:" + self.name)
+                    self._saw("enter", mine)
+                    if how == "fail":
+                        raise self.w.err_of("enter:" + self.name, self.errcls)
+                elif self.enter == "fail":
                     raise self.w.err_of("enter:" + self.name, self.errcls)
-            elif self.enter == "fail":
-                raise self.w.err_of("enter:" + self.name, self.errcls)
         except asyncio.CancelledError:
             self.enter_status = "cancelled"
             raise
@@ -196,17 +202,29 @@ class Disp:
         k = (len(self.enter) + len(self.exit) + sum(map(ord, self.name))) % 3
         return states if k == 0 else (s for s in states) if k == 1 else iter(tuple(states))
 
+    def _saw(self, where, mine):
+        try:
+            v = ctx.state(A).v
+        except Exception as e:  # noqa: BLE001
+            v = repr(e)
+        if v != mine:
+            self.w.disp_errors.append(f"{self.name} saw A={v} inside its own update A={mine} while {where}ing")
+
     async def __aexit__(self, et, ev, tb):
         self.n_exit += 1
         self.exit_arg = self.w.classify(ev)
         self.exit_status = "exiting"
         try:
-            if self.exit == "suspend":
-                how = await self.w.gate("dx:" + self.name)
-                if how == "fail":
+            mine = 700 + sum(map(ord, self.name)) % 97
+            with ctx.updated(_make(A, mine)):
+                self._saw("exit", mine)
+                if self.exit == "suspend":
+                    how = await self.w.gate("dx:" + self.name)
+                    self._saw("exit", mine)
+                    if how == "fail":
+                        raise self.w.err_of("exit:" + self.name, self.errcls)
+                elif self.exit == "fail":
                     raise self.w.err_of("exit:" + self.name, self.errcls)
-            elif self.exit == "fail":
-                raise self.w.err_of("exit:" + self.name, self.errcls)
         except asyncio.CancelledError:
             self.exit_status = "cancelled"
             raise
@@ -251,6 +269,7 @@ class World:
         # the caller's explicit default is an instance of a SUBCLASS of the requested type (a valid T all the same)
         self.explicit = {t: _make(_SUB[t], 77) for t in TYPES}
         self.nprobe = 0
+        self.disp_errors = []
 
     # ---- helpers used from inside tasks
     def err_of(self, tag, cls=Err):
